@@ -265,4 +265,146 @@ theorem field_ok (p : Char → Bool) (sc : Scope) (g : VIn) (hl : LocalsOk sc g)
   simp only [S1.check] at c3
   simp only [c3]
 
+
+/-! ### sequences -/
+
+theorem checkL1_append (sc : Scope) : ∀ (a b : List S1) (asg : List S),
+    checkL1 sc asg (a ++ b) = (match checkL1 sc asg a with
+      | none => none
+      | some none => some none
+      | some (some x) => checkL1 sc x b)
+  | [], b, asg => by simp [checkL1]
+  | s :: r, b, asg => by
+    simp only [List.cons_append, checkL1]
+    cases hs : s.check sc asg with
+    | none => rfl
+    | some f =>
+      cases f with
+      | none => rfl
+      | some x => exact checkL1_append sc r b x
+
+theorem checkL2_append (sc : Scope) : ∀ (a b : List S2) (asg : List S),
+    checkL2 sc asg (a ++ b) = (match checkL2 sc asg a with
+      | none => none
+      | some none => some none
+      | some (some x) => checkL2 sc x b)
+  | [], b, asg => by simp [checkL2]
+  | s :: r, b, asg => by
+    simp only [List.cons_append, checkL2]
+    cases hs : s.check sc asg with
+    | none => rfl
+    | some f =>
+      cases f with
+      | none => rfl
+      | some x => exact checkL2_append sc r b x
+
+/-- all constructor fields -/
+theorem fields_ok (p : Char → Bool) (sc : Scope) (g : VIn) (hl : LocalsOk sc g) (ho : OuterOk sc g) (he : ExprsOk sc g)
+    (hk : LookupsOk g) : ∀ (fs : List VField) (asg : List S), (∀ f ∈ fs, f ∈ g.fields) → Inv sc asg → t "o" ∈ asg →
+    (g.preAssign = true → t "i" ∈ asg) → (g.hasDefaults = true → t "init_kwargs" ∈ asg) →
+    ∃ a, checkL1 sc asg (allFieldStmts p g fs) = some (some a) ∧ (∀ n ∈ asg, n ∈ a) ∧ Inv sc a
+  | [], asg, _, hi, _, _, _ => ⟨asg, rfl, fun _ h => h, hi⟩
+  | f :: r, asg, hfs, hi, hao, hai, hakw => by
+    obtain ⟨a1, c1, s1, _, i1⟩ := field_ok p sc g hl ho he hk f (hfs f (by simp)) asg hi hao hai hakw
+    obtain ⟨a2, c2, s2, i2⟩ := fields_ok p sc g hl ho he hk r a1 (fun f' hf' => hfs f' (by simp [hf'])) i1 (s1 _ hao)
+      (fun h => s1 _ (hai h)) (fun h => s1 _ (hakw h))
+    refine ⟨a2, ?_, fun n hn => s2 n (s1 n hn), i2⟩
+    simp only [allFieldStmts, checkL1_append, c1, c2]
+
+/-- `field = None` and the tag-key test -/
+theorem tag_ok (p : Char → Bool) (sc : Scope) (g : VIn) (hl : LocalsOk sc g) (hne : g.fields ≠ []) (asg : List S) (hi : Inv sc asg)
+    (hao : t "o" ∈ asg) (hai : g.preAssign = true → t "i" ∈ asg) :
+    ∃ a, checkL1 sc asg (tagStmts p g) = some (some a) ∧ (∀ n ∈ asg, n ∈ a) ∧ Inv sc a := by
+  unfold tagStmts
+  cases g.tagKey with
+  | none => exact ⟨asg, rfl, fun _ h => h, hi⟩
+  | some k =>
+    cases hpa : g.preAssign with
+    | false => exact ⟨asg, rfl, fun _ h => h, hi⟩
+    | true =>
+      have li := hl.i hpa
+      obtain ⟨a1, c1, s1, _, i1⟩ := line_ok sc [fieldNone] asg hi ⟨by simp [fieldNone], by simp [fieldNone, hl.field hne], trivial⟩
+      obtain ⟨a2, c2, s2, _, i2⟩ := ifc_line_ok sc (pyRepr p k ++ t " in o") [t "o"] [] [] [incPart] a1 i1
+        (by simp; exact Rd.local i1 (s1 _ hao)) (by simp)
+        ⟨by simp [incPart]; exact Rd.local i1 (s1 _ (hai hpa)), by simp [incPart, li], trivial⟩
+      refine ⟨a2, ?_, fun n hn => s2 n (s1 n hn), i2⟩
+      simp only [if_true, checkL1, S1.check, c1]
+      simp only [S1.check] at c2
+      simp only [c2]
+
+theorem safePrefix_field (p : Char → Bool) (g : VIn) (f : VField) (r : List VField) :
+    t "field" ∈ safePrefix (tagStmts p g ++ allFieldStmts p g (f :: r)) := by
+  have hfirst : t "field" ∈ safePrefix (allFieldStmts p g (f :: r)) := by
+    simp only [allFieldStmts, fieldStmts, List.cons_append, lookupLine]
+    cases f.lookup <;> simp [safePrefix, fieldLit, getPart, pathPart, List.takeWhile]
+  unfold tagStmts
+  cases g.tagKey with
+  | none => simpa using hfirst
+  | some k =>
+    cases g.preAssign with
+    | false => simpa using hfirst
+    | true => simp [safePrefix, fieldNone, List.takeWhile]
+
+/-- the `try` block around the fields -/
+theorem block_ok (p : Char → Bool) (sc : Scope) (g : VIn) (hl : LocalsOk sc g) (ho : OuterOk sc g) (he : ExprsOk sc g)
+    (hk : LookupsOk g) (asg : List S) (hi : Inv sc asg) (hao : t "o" ∈ asg)
+    (hai : g.preAssign = true → t "i" ∈ asg) (hakw : g.hasDefaults = true → t "init_kwargs" ∈ asg) :
+    ∃ a, checkL2 sc asg (fieldBlock p g) = some (some a) ∧ (∀ n ∈ asg, n ∈ a) ∧ Inv sc a := by
+  unfold fieldBlock
+  cases hfs : g.fields with
+  | nil => exact ⟨asg, rfl, fun _ h => h, hi⟩
+  | cons f r =>
+    have hne : g.fields ≠ [] := by simp [hfs]
+    obtain ⟨a1, c1, s1, i1⟩ := tag_ok p sc g hl hne asg hi hao hai
+    obtain ⟨a2, c2, s2, i2⟩ := fields_ok p sc g hl ho he hk (f :: r) a1 (fun f' hf' => by rw [hfs]; exact hf') i1 (s1 _ hao)
+      (fun h => s1 _ (hai h)) (fun h => s1 _ (hakw h))
+    have hbody : checkL1 sc asg (tagStmts p g ++ allFieldStmts p g (f :: r)) = some (some a2) := by
+      simp only [checkL1_append, c1, c2]
+    -- the handler
+    let ah : List S := safePrefix (tagStmts p g ++ allFieldStmts p g (f :: r)) ++ asNames (some (t "e")) ++ asg
+    have subh : ∀ n ∈ asg, n ∈ ah := fun n hn => by simp [ah, hn]
+    have hsp : ∀ n ∈ safePrefix (tagStmts p g ++ allFieldStmts p g (f :: r)), n = t "field" := by
+      intro n hn
+      have hfirst : ∀ m ∈ safePrefix (allFieldStmts p g (f :: r)), m = t "field" := by
+        intro m hm
+        simp only [allFieldStmts, fieldStmts, List.cons_append, lookupLine] at hm
+        cases hlk : f.lookup <;> simp [hlk, safePrefix, fieldLit, getPart, pathPart, List.takeWhile] at hm <;> exact hm
+      unfold tagStmts at hn
+      cases htk : g.tagKey with
+      | none => simp [htk] at hn; exact hfirst n hn
+      | some k =>
+        cases hpa : g.preAssign with
+        | false => simp [htk, hpa] at hn; exact hfirst n hn
+        | true => simp [htk, hpa, safePrefix, fieldNone, List.takeWhile] at hn; exact hn
+    have iah : Inv sc ah := by
+      intro n hn
+      simp only [ah, List.mem_append] at hn
+      rcases hn with (h | h) | h
+      · rw [hsp n h]; exact hl.field hne
+      · simp [asNames] at h; rw [h]; exact hl.e hne
+      · exact hi n h
+    have hfield : t "field" ∈ ah := by simp [ah, safePrefix_field p g f r]
+    have he' : t "e" ∈ ah := by simp [ah, asNames]
+    have oF : ∀ n, n ∈ [t "cls", t "fields", t "MISSING", t "re_raise", t "raise_missing_fields", t "locals", t "Exception"] →
+        ∀ x, Rd sc x n := fun n hn x => outer_rd ho x n (mem_outer_fixed g n hn)
+    obtain ⟨a3, c3, s3, _, _⟩ := line_ok sc [handlerPart] ah iah ⟨by
+      intro n hn
+      simp only [handlerPart, List.mem_cons, List.not_mem_nil, or_false] at hn
+      rcases hn with h | h | h | h | h | h | h
+      · rw [h]; exact oF _ (by simp) _
+      · rw [h]; exact Rd.local iah he'
+      · rw [h]; exact oF _ (by simp) _
+      · rw [h]; exact Rd.local iah (subh _ hao)
+      · rw [h]; exact oF _ (by simp) _
+      · rw [h]; exact Rd.local iah hfield
+      · rw [h]; exact oF _ (by simp) _, by simp [handlerPart], trivial⟩
+    have hh : checkL0 sc ah handlerStmts = some (some a3) := by
+      simp only [handlerStmts, checkL0, c3]
+    have hsub3 : ∀ n ∈ asg, n ∈ a3 := fun n hn => s3 n (subh n hn)
+    have re : rds sc asg [t "Exception"] = true := rds_of sc asg _ (fun n hn => by
+      simp only [List.mem_cons, List.not_mem_nil, or_false] at hn
+      rw [hn]; exact oF _ (by simp) _)
+    refine ⟨a2.filter a3.contains, ?_, mem_meet a2 a3 asg (fun n hn => s2 n (s1 n hn)) hsub3, inv_filter _ _ i2⟩
+    simp only [checkL2, S2.check, re, if_true, hbody, ah, hh, Flow.meet]
+
 end DW.GenLoadV1
